@@ -22,9 +22,30 @@ theorem fan_selfsimilar (P : RiemFan.P) (x t s : ℝ) (hs : s ≠ 0) (ht : t ≠
     RiemFan.density P (P.xd0 + s * (x - P.xd0)) (s * t) = RiemFan.density P x t ∧
     RiemFan.pressure P (P.xd0 + s * (x - P.xd0)) (s * t) = RiemFan.pressure P x t ∧
     RiemFan.velocity P (P.xd0 + s * (x - P.xd0)) (s * t) = RiemFan.velocity P x t := by
-  have e : (P.xd0 + s * (x - P.xd0) - P.xd0) / (s * t) = (x - P.xd0) / t := by field_simp; ring
-  refine ⟨?_, ?_, ?_⟩ <;> simp only [epv_tree] <;> split_ifs <;> simp only [epv_cond] at * <;>
-    first | contradiction | simp only [epv_leaf, e]
+  -- shape-independent: every `P` is a `toFan` record, and on those the tree-level closed forms `fanRho_eq`,
+  -- `fanP_eq`, `fanU_eq` (all leaves of the side detection) see x, t only through (x - xd0)/t
+  have key : ∀ (q : Prob) (p ρ u γ xd0 : ℝ),
+      RiemFan.density (toFan q p ρ u γ xd0) (xd0 + s * (x - xd0)) (s * t) = RiemFan.density (toFan q p ρ u γ xd0) x t ∧
+      RiemFan.pressure (toFan q p ρ u γ xd0) (xd0 + s * (x - xd0)) (s * t) = RiemFan.pressure (toFan q p ρ u γ xd0) x t ∧
+      RiemFan.velocity (toFan q p ρ u γ xd0) (xd0 + s * (x - xd0)) (s * t)
+        = RiemFan.velocity (toFan q p ρ u γ xd0) x t := by
+    intro q p ρ u γ xd0
+    have e : (xd0 + s * (x - xd0) - xd0) / (s * t) = (x - xd0) / t := by field_simp; ring
+    have hy : fanY q p ρ u γ xd0 (xd0 + s * (x - xd0)) (s * t) = fanY q p ρ u γ xd0 x t := by
+      unfold fanY; rw [e]
+    refine ⟨?_, ?_, ?_⟩
+    · show fanRho q p ρ u γ xd0 _ _ = fanRho q p ρ u γ xd0 x t
+      rw [fanRho_eq, fanRho_eq, hy]
+    · show fanP q p ρ u γ xd0 _ _ = fanP q p ρ u γ xd0 x t
+      rw [fanP_eq, fanP_eq, hy]
+    · show fanU q p ρ u γ xd0 _ _ = fanU q p ρ u γ xd0 x t
+      rw [fanU_eq, fanU_eq, e]
+  have hP : P = toFan { pl := P.pl, rl := P.rl, ul := P.ul, gl := 0, pr := 0, rr := 0, ur := 0, gr := 0 }
+      P.pk P.rk P.uk P.gk P.xd0 := by cases P; rfl
+  have h := key { pl := P.pl, rl := P.rl, ul := P.ul, gl := 0, pr := 0, rr := 0, ur := 0, gr := 0 }
+    P.pk P.rk P.uk P.gk P.xd0
+  rw [← hP] at h
+  exact h
 
 /-- the same for the views used by the assembly -/
 theorem fan_similar (q : Prob) (p ρ u γ xd0 x t s : ℝ) (hs : s ≠ 0) (ht : t ≠ 0) :
